@@ -9,7 +9,7 @@ from .stubs import make_stubs
 from .contract import verify_function
 from . import solve
 
-CONTRACT_MODULES = ["contracts.core", "contracts.utils", "contracts.transforms", "contracts.dedispersion", "contracts.fftmisc", "contracts.phase", "contracts.readers"]
+CONTRACT_MODULES = ["contracts.core", "contracts.utils", "contracts.transforms", "contracts.dedispersion", "contracts.fftmisc", "contracts.phase", "contracts.readers", "contracts.predictor"]
 
 
 def load(root="/repo", modules=None):
